@@ -20,6 +20,7 @@ class Emitter:
         lw.node_by_id = {}
         self.contracts = contracts or {}
         self.twins = {}
+        self.mutable_globals = []
         self.done = {}       # cname -> list of lines
         self.protos = {}
         self.order = []
@@ -384,6 +385,9 @@ class Emitter:
             if ctx.pre:
                 raise LowerError('global %s needs dynamic initialisation' % cname)
             const = 'const ' if (qt(best).strip().startswith('const ') and not lw.cfg.get('abstract_tables')) else ''
+            if not qt(best).strip().startswith('const ') and 'constexpr' not in str(best.get('constexpr', '')):
+                # a mutable variable with static storage: an operation may find it in any state, not only the initial one
+                self.mutable_globals.append(cname)
             out.append('%s%s = %s;' % (const, lw.ctype(t, cname), s))
         return out
 
